@@ -144,6 +144,8 @@ type Exec struct {
 	symMaps    map[uintptr][]symMapEntry
 	curInstr   ssa.Instruction
 	lastBoth   bool
+	maxDepth   int
+	depthBase  int
 	races      []string
 }
 
